@@ -63,7 +63,7 @@ const (
 
 var (
 	mode    = flag.String("mode", "c01", "c01 | c03 | c02 | schemas")
-	perCase = flag.Duration("case-timeout", 10*time.Second, "watchdog per case in the child")
+	perCase = flag.Duration("case-timeout", 5*time.Second, "watchdog per case in the child")
 )
 
 func main() {
@@ -300,12 +300,14 @@ func runInChildren(mode string, rows []row) {
 			case mode == "c03" && decoded != started && (out.TimedOut || out.Panic || strings.Contains(out.Stderr, "VF-WATCHDOG")):
 				// the first decode itself did not return: not a re-encoding question (C02 decides it)
 				vfgo.OK(r, cls, "first decode did not return (C02): "+firstLine(out.Stderr))
+			// which of time-out, memory watchdog, out-of-memory or stack-overflow fatal error fires first for an
+			// input that makes the decoder consume unbounded resources depends on the machine: one key for all
 			case out.TimedOut || strings.Contains(out.Stderr, "VF-WATCHDOG hang"):
-				vfgo.Violation(r, cls, "hang:"+shapeKey(mode, r), fmt.Sprintf("no result within %s for %s", *perCase, describe(r)))
+				vfgo.Violation(r, cls, resKey(mode, r), fmt.Sprintf("no result within %s for %s", *perCase, describe(r)))
 			case strings.Contains(out.Stderr, "VF-WATCHDOG memory") || strings.Contains(out.Stderr, "out of memory") || strings.Contains(out.Stderr, "cannot allocate"):
-				vfgo.Violation(r, cls, "memory-exhausted:"+shapeKey(mode, r), fmt.Sprintf("memory limit hit for %s: %s", describe(r), firstLine(out.Stderr)))
+				vfgo.Violation(r, cls, resKey(mode, r), fmt.Sprintf("memory limit hit for %s: %s", describe(r), firstLine(out.Stderr)))
 			case out.Panic:
-				vfgo.Violation(r, cls, "fatal:"+shapeKey(mode, r), fmt.Sprintf("%s: %s", describe(r), vfgo.PanicHead(out.Stderr)))
+				vfgo.Violation(r, cls, resKey(mode, r), fmt.Sprintf("fatal error for %s: %s", describe(r), vfgo.PanicHead(out.Stderr)))
 			default:
 				vfgo.Inconclusive(r, fmt.Sprintf("child died (exit %d signal %s) at %s: %s", out.Exit, out.Signal, describe(r), firstLine(out.Stderr)))
 			}
@@ -318,6 +320,13 @@ func runInChildren(mode string, rows []row) {
 		}
 		next = end
 	}
+}
+
+func resKey(mode string, r row) string {
+	if mode == "c02" {
+		return "resource-exhaustion:" + shapeKey(mode, r)
+	}
+	return "reencode-resource-exhaustion:" + shapeKey(mode, r)
 }
 
 func firstLine(s string) string {
@@ -365,15 +374,26 @@ func caseClass(mode string, r row) string {
 	return fmt.Sprintf("%s/%s/%s/pos%d/decodes=%v", r.Kind, caseType(r), r.What, r.Pos, r.OK)
 }
 
-// shapeKey is the part of a violation key that names the failing input shape.
+// shapeKey is the part of a violation key that names the failing input shape: the decoded
+// type (built-in name, or "struct" for the registered structures) and the varied field.
 func shapeKey(mode string, r row) string {
-	if r.Origin != "" {
-		return caseType(r) + "/" + r.Origin
+	t := caseType(r)
+	if r.Name != "" {
+		t = "struct"
+	} else if mode == "c02" {
+		t = "builtin"
 	}
 	if r.What != "" {
-		return caseType(r) + "/" + r.What
+		return t + "/" + r.What
 	}
-	return caseType(r)
+	if r.Origin != "" {
+		o := r.Origin
+		if strings.HasPrefix(o, "mask-flip") {
+			o = "mask-flip"
+		}
+		return t + "/" + o
+	}
+	return t
 }
 
 var inFlight atomic.Int64
@@ -605,7 +625,7 @@ func hostile(r row) childRes {
 			Detail: fmt.Sprintf("ua.Decode(%x) into %s panicked: %s", clip(b), ty, msg)}
 	}
 	if bound := uint64(allocK*len(b) + allocC); alloc > bound {
-		return childRes{Status: "violation", Key: "allocation-exceeds-bound:" + hostileShape(r, b),
+		return childRes{Status: "violation", Key: resKey("c02", r),
 			Detail: fmt.Sprintf("ua.Decode of %d bytes %x into %s allocated %d bytes > %d*len+%d (err=%v)", len(b), clip(b), ty, alloc, allocK, allocC, err)}
 	}
 	return childRes{Status: "ok", Obs: fmt.Sprintf("err=%v alloc=%d in %s", err != nil, alloc, el.Round(time.Microsecond))}
